@@ -93,8 +93,8 @@ func (k *vKV) load(r io.Reader) error {
 
 type vRegularSM struct{ *vKV }
 
-func (s *vRegularSM) Update(e sm.Entry) (sm.Result, error)        { return s.apply(e), nil }
-func (s *vRegularSM) Lookup(q interface{}) (interface{}, error)    { return s.kv[q.(uint64)], nil }
+func (s *vRegularSM) Update(e sm.Entry) (sm.Result, error)      { return s.apply(e), nil }
+func (s *vRegularSM) Lookup(q interface{}) (interface{}, error) { return s.kv[q.(uint64)], nil }
 func (s *vRegularSM) SaveSnapshot(w io.Writer, _ sm.ISnapshotFileCollection, _ <-chan struct{}) error {
 	return s.save(w)
 }
@@ -164,7 +164,9 @@ type vSnapshotter struct {
 	all map[uint64]pb.Snapshot
 }
 
-func (s *vSnapshotter) path(index uint64) string { return fmt.Sprintf("/ss/snapshot-%016X.gbsnap", index) }
+func (s *vSnapshotter) path(index uint64) string {
+	return fmt.Sprintf("/ss/snapshot-%016X.gbsnap", index)
+}
 func (s *vSnapshotter) GetSnapshot() (pb.Snapshot, error) {
 	if s.cur.Index == 0 {
 		return pb.Snapshot{}, errNoSS
